@@ -431,13 +431,19 @@ func KeysFromRequest(r *http.Request) []Key {
 	if r.Method != "GET" {
 		method = r.Method
 	}
+	// The request URL is the rule's destination (or a redirect target) when it carries a host:
+	// that host is part of the resource's identity, two destinations may share a path.
+	target := r.URL.RequestURI()
+	if len(r.URL.Host) > 0 {
+		target = r.URL.Host + target
+	}
 	if len(r.Header.Get("origin")) > 0 {
-		k := newKey(method, r.Host, r.URL.RequestURI(), false, r.Header, append(keyClientHeaders, "origin"))
+		k := newKey(method, r.Host, target, false, r.Header, append(keyClientHeaders, "origin"))
 		keys = append(keys, k)
-		k = newKey(method, r.Host, r.URL.RequestURI(), true, r.Header, keyClientHeaders)
+		k = newKey(method, r.Host, target, true, r.Header, keyClientHeaders)
 		keys = append(keys, k)
 	} else {
-		k := newKey(method, r.Host, r.URL.RequestURI(), false, r.Header, keyClientHeaders)
+		k := newKey(method, r.Host, target, false, r.Header, keyClientHeaders)
 		keys = append(keys, k)
 	}
 
